@@ -152,6 +152,9 @@ func vfGenCase(r *verifkit.Rand, i int) (*conformancev1.TestCase, string) {
 				nresp := r.Intn(5)
 				m.ResponseDefinition = vfGenStreamDef(r, nresp)
 				switch {
+				case nresp == 0 && nreq > 1 && m.FullDuplex && m.ResponseDefinition.Error != nil:
+					// known finding (see known-findings.json): expectation echoes all requests, the spec'd server only the first
+					shape += "/error-no-responses-several-requests"
 				case nresp > nreq:
 					shape += "/more-responses-than-requests"
 				case nresp < nreq:
